@@ -20,7 +20,7 @@ FLAG_INV = {
     "scheduler_raised": "NeverRaises",
 }
 INV_C14 = ["ObsLevelsMatchPolicy", "PendingOnlyLive", "PendingNotObserved", "ObsOnceAndTrue", "NeverRaises"]
-FLAG_INV.update({"obs_levels": "ObsLevelsMatchPolicy", "pending_not_running": "PendingOnlyLive",
+FLAG_INV.update({"obs_levels": "ObsLevelsMatchPolicy", "obs_levels_completion": "ObsLevelsMatchPolicy", "pending_not_running": "PendingOnlyLive",
                  "pending_observed": "PendingNotObserved", "obs_duplicate": "ObsOnceAndTrue", "obs_value": "ObsOnceAndTrue",
                  "pending_duplicate": "ObsOnceAndTrue"})
 FLAGS_C14 = sorted(f for f, i in FLAG_INV.items() if i in INV_C14)
